@@ -72,7 +72,8 @@ def run(ctx):
             ng += 1
     ctx.floor("H3", "typed getters", ng, 10)
     for k, i in F.insts.items():
-        if k.startswith(MH) and i.get("eff_pub") and not i.get("closure") and i["name"].endswith("_tag") and i["name"] not in S.HEADER_GETTERS:
+        if k.startswith(MH) and i.get("eff_pub") and not i.get("closure") and i["name"].endswith("_tag") and i["name"] not in S.HEADER_GETTERS \
+                and not TT.added_getter(ctx, F, MH, i, "H3"):
             ctx.fail("H3", "unmapped:" + i["name"], "getter is in the getter table", i.get("span", ""), "unmapped typed getter")
     # ---- H4
     gt = F.fns.get("multiboot2_header::header::Multiboot2Header::<'a>::get_tag")
